@@ -30,7 +30,7 @@ def run(repo):
     # (a)
     fi = repo.func('lp.LinProg.lp_export')
     res.functions.add(fi.fq)
-    reads = {n.attr for n in walk_no_nested(fi.node) if is_self_attr(n)}
+    reads = {n.attr for n in ast.walk(fi.node) if is_self_attr(n)}          # nested helper functions included
     for f in ('obj', 'linear', 'sense', 'const', 'lb', 'ub', 'vtype'):
         ok = f in reads
         res.inst({'lp_export reads': f, 'ok': ok}, ok)
@@ -38,7 +38,8 @@ def run(repo):
             res.fail(Finding(RULE, fi.fq, 'never reads self.' + f,
                              'lp_export never reads self.%s: the written file cannot describe that '
                              'part of the program' % f, repo.where(fi), P))
-    for letter, section in (('I', 'General'), ('B', 'Binary')):
+    def derived_from(letter):
+        """locals computed (transitively) from the comparison self.vtype == letter"""
         names = set()
         for n in walk_no_nested(fi.node):
             if isinstance(n, ast.Assign) and any(
@@ -47,30 +48,61 @@ def run(repo):
                     for c in ast.walk(n.value)):
                 for t in n.targets:
                     names |= {x.id for x in ast.walk(t) if isinstance(x, ast.Name)}
-        # names derived from those (bin_string = ... for i in ind_bin)
-        derived = set(names)
-        for n in walk_no_nested(fi.node):
-            if isinstance(n, ast.Assign) and any(isinstance(x, ast.Name) and x.id in names for x in ast.walk(n.value)):
-                for t in n.targets:
-                    if isinstance(t, ast.Name):
-                        derived.add(t.id)
+        for _ in range(6):
+            grew = False
+            for n in walk_no_nested(fi.node):
+                if isinstance(n, ast.Assign) and any(isinstance(x, ast.Name) and x.id in names for x in ast.walk(n.value)):
+                    for t in n.targets:
+                        for x in ast.walk(t):
+                            if isinstance(x, ast.Name) and isinstance(x.ctx, ast.Store) and x.id not in names:
+                                names.add(x.id)
+                                grew = True
+            if not grew:
+                break
+        return names
+    par_ = {}
+    for n in ast.walk(fi.node):
+        for c in ast.iter_child_nodes(n):
+            par_[id(c)] = n
+    for letter, section in (('I', 'General'), ('B', 'Binary')):
+        other_letter, other = ('B', 'Binary') if section == 'General' else ('I', 'General')
+        lits = {c.comparators[0].value for c in walk_no_nested(fi.node) if isinstance(c, ast.Compare) and
+                is_self_attr(c.left, 'vtype') and isinstance(c.comparators[0], ast.Constant)}
+        mine, theirs = derived_from(letter), set()
+        for l_ in lits - {letter}:
+            theirs |= derived_from(l_)          # the other section's selection, or a misspelt letter
+        only_mine, only_theirs = mine - theirs, theirs - mine
         ok = False
-        for n in walk_no_nested(fi.node):
-            if isinstance(n, ast.If) and any(isinstance(x, ast.Name) and x.id in names for x in ast.walk(n.test)):
-                strs = ' '.join(_str_consts(ast.Module(body=n.body, type_ignores=[])))
-                used = {x.id for x in ast.walk(ast.Module(body=n.body, type_ignores=[])) if isinstance(x, ast.Name)}
-                other = 'Binary' if section == 'General' else 'General'
-                if section in strs and other not in strs and (used & derived):
-                    ok = True
-        literal_tests = [c for c in walk_no_nested(fi.node) if isinstance(c, ast.Compare) and
-                         is_self_attr(c.left, 'vtype') and isinstance(c.comparators[0], ast.Constant)]
-        if not ok and not names and len(literal_tests) < 2 and any(section in c for c in _str_consts(fi.node)):
+        wrong = None
+        # every statement that writes the section header, with the tests it sits under
+        writers = [n for n in walk_no_nested(fi.node) if isinstance(n, (ast.Assign, ast.AugAssign, ast.Expr))
+                   and any(section in c for c in _str_consts(n))]
+        if not writers:
+            raise AnalysisError('lp_export: no statement writes the `%s` section' % section)
+        for w in writers:
+            tests = []
+            cur = w
+            while id(cur) in par_:
+                p_ = par_[id(cur)]
+                if isinstance(p_, ast.If):
+                    tests.append(p_)
+                cur = p_
+            tnames = {x.id for t_ in tests for x in ast.walk(t_.test) if isinstance(x, ast.Name)}
+            blk = tests[0].body if tests and any(w is s_ for s_ in tests[0].body) else [w]
+            used = {x.id for s_ in blk for x in ast.walk(s_) if isinstance(x, ast.Name)}
+            if (tnames & only_mine) and (used & only_mine) and not (used & only_theirs):
+                ok = True
+            elif not tests:
+                wrong = 'is written unconditionally'
+            elif (tnames & only_theirs) or (used & only_theirs):
+                wrong = 'is written for the columns selected by another vtype letter (%s)' % sorted(lits - {letter})
+        if not ok and wrong is None:
             raise AnalysisError('lp_export: the `%s` section is written in a form the rule does not follow' % section)
         res.inst({'lp_export section': section, 'selected_by': "vtype == '%s'" % letter, 'ok': ok}, ok)
         if not ok:
             res.fail(Finding(RULE, fi.fq, 'section %s' % section,
                              'lp_export: the `%s` section is not (only) emitted for the columns with '
-                             'vtype == \'%s\'' % (section, letter), repo.where(fi), P))
+                             'vtype == \'%s\': it %s' % (section, letter, wrong), repo.where(fi), P))
     # (g) the sign of the leading term: the writer formats every term as '<sign> <abs> x<i>'; dropping the
     #     first two characters of the joined text is only right when they are the '+ ' of a positive term
     from rsx.flow import MustFlow as _MF, clauses_of as _clauses_of
@@ -173,6 +205,20 @@ def run(repo):
         # the block producers are called directly or handed on as bound methods (self.showqc)
         got_calls = {n.attr for n in walk_no_nested(f3.node) if is_self_attr(n) and n.attr.startswith('show')}
         got_fields = {n.attr for n in walk_no_nested(f3.node) if is_self_attr(n)}
+        # super().show(): what the base class's table already includes
+        cur_cls, depth_ = f3.cls, 0
+        todo = [f3]
+        while todo and depth_ < 4:
+            fcur = todo.pop()
+            depth_ += 1
+            for n in walk_no_nested(fcur.node):
+                if isinstance(n, ast.Call) and isinstance(n.func, ast.Attribute) and ntext(n.func.value) == 'super()':
+                    base_m = repo.resolve_method(fcur.cls, n.func.attr, after=fcur.cls)
+                    if base_m is not None:
+                        got_calls |= {x.attr for x in walk_no_nested(base_m.node) if is_self_attr(x) and
+                                      x.attr.startswith('show')}
+                        got_fields |= {x.attr for x in walk_no_nested(base_m.node) if is_self_attr(x)}
+                        todo.append(base_m)
         miss = [c for c in calls if c not in got_calls] + [f for f in fields if f not in got_fields]
         ok = not miss
         res.inst({'show': fq, 'missing': miss}, ok)
@@ -244,6 +290,26 @@ def _name_kind(names):
     return None
 
 
+def _sink_kind(par, assign):
+    """where the assigned local goes: the keyword it is passed under (A_ub= / b_ub= / A_eq= / b_eq=) says which
+    rows it must hold, whatever the local is called"""
+    if not (len(assign.targets) == 1 and isinstance(assign.targets[0], ast.Name)):
+        return None
+    name = assign.targets[0].id
+    root = assign
+    while id(root) in par:
+        root = par[id(root)]
+    kinds = set()
+    for n in ast.walk(root):
+        if isinstance(n, ast.Call):
+            for k in n.keywords:
+                if k.arg and isinstance(k.value, ast.Name) and k.value.id == name:
+                    kd = _name_kind(k.arg)
+                    if kd:
+                        kinds.add(kd)
+    return kinds.pop() if len(kinds) == 1 else None
+
+
 def _sense_use(cmp_node, value, par):
     """True: consistent; False: inconsistent; None: unknown use."""
     # climb to the statement / IfExp / If that uses the comparison
@@ -266,7 +332,7 @@ def _sense_use(cmp_node, value, par):
                 for t, v in zip(p.targets[0].elts, p.value.elts):
                     if any(cmp_node is x for x in ast.walk(v)):
                         names = ntext(t)
-            kind = _name_kind(names)
+            kind = _sink_kind(par, p) or _name_kind(names)
             if kind is not None:
                 return (value == 1) == (kind == 'eq')
             return None
@@ -276,10 +342,9 @@ def _sense_use(cmp_node, value, par):
                 # store under the mask: b_l[bool_eq] = ...
                 return True
             names = ' '.join(ntext(t) for t in a.targets)
-            is_ineq = 'ineq' in names
-            is_eq = ('eq' in names and not is_ineq)
-            if is_eq or is_ineq:
-                return (value == 1) == is_eq
+            kind = _sink_kind(par, a) or _name_kind(names)
+            if kind is not None:
+                return (value == 1) == (kind == 'eq')
             return None
         if isinstance(p, (ast.Return, ast.Expr)):
             return None
